@@ -1432,3 +1432,95 @@ mod tests {
         assert!(debug_str.ends_with('}'));
     }
 }
+
+// Verification hooks (guarded; compiled only with `--cfg mini_moka_verif`).
+#[cfg(mini_moka_verif)]
+impl<K, V, S> Cache<K, V, S>
+where
+    K: Hash + Eq,
+    S: BuildHasher + Clone,
+{
+    pub fn verif_set_clock(&mut self, clock: &crate::verif::VerifClock) {
+        self.expiration_clock = Some(clock.clock());
+    }
+
+    pub fn verif_frequency(&self, key: &K) -> u8 {
+        self.frequency_sketch.frequency(self.build_hasher.hash_one(key))
+    }
+
+    /// Read-only snapshot of the internal state.
+    pub fn verif_snapshot(&self, clock: &crate::verif::VerifClock) -> crate::verif::UnsyncSnap<K, V>
+    where
+        K: Clone,
+        V: Clone,
+    {
+        use crate::verif::*;
+        let ns = |t: Option<Instant>| t.map(|t| clock.ns(t));
+        let mut structure_error = None;
+        let mut walk_ao = |d: &Deque<KeyHashDate<K>>| match d.verif_walk() {
+            Ok(v) => v
+                .into_iter()
+                .map(|(addr, e)| AoNodeSnap {
+                    addr,
+                    key: (*e.key).clone(),
+                    hash: e.hash,
+                    ts: ns(e.timestamp),
+                    info: 0,
+                })
+                .collect::<Vec<_>>(),
+            Err(e) => {
+                structure_error = Some(e);
+                Vec::new()
+            }
+        };
+        let window = walk_ao(&self.deques.window);
+        let probation = walk_ao(&self.deques.probation);
+        let protected = walk_ao(&self.deques.protected);
+        let write_order = match self.deques.write_order.verif_walk() {
+            Ok(v) => v
+                .into_iter()
+                .map(|(addr, e)| WoNodeSnap {
+                    addr,
+                    key: (*e.key).clone(),
+                    ts: ns(e.timestamp),
+                    info: 0,
+                })
+                .collect::<Vec<_>>(),
+            Err(e) => {
+                structure_error = Some(e);
+                Vec::new()
+            }
+        };
+        let entries = self
+            .cache
+            .iter()
+            .map(|(k, e)| EntrySnap {
+                key: (**k).clone(),
+                value: e.value.clone(),
+                weight: e.policy_weight(),
+                last_accessed: ns(e.last_accessed()),
+                last_modified: ns(e.last_modified()),
+                ao_node: e.access_order_q_node().map(|n| n.decompose_ptr() as usize),
+                ao_region: e.access_order_q_node().map(|n| n.decompose_tag()),
+                wo_node: e.write_order_q_node().map(|n| n.as_ptr() as usize),
+                admitted: true,
+                dirty: false,
+                info: 0,
+                key_obj: Rc::as_ptr(k) as usize,
+            })
+            .collect();
+        let mut sketch = self.frequency_sketch.verif_snapshot();
+        sketch.enabled = self.frequency_sketch_enabled;
+        UnsyncSnap {
+            entry_count: self.entry_count,
+            weighted_size: self.weighted_size,
+            entries,
+            window,
+            probation,
+            protected,
+            write_order,
+            sketch,
+            structure_error,
+        }
+    }
+}
